@@ -23,7 +23,7 @@ CASE_TIMEOUT = 900
 KINDS = cards.SFS + cards.XSS
 PROCS = ["EM", "NC", "CC"]
 BADKIN = [("x=0", dict(x=0.0)), ("x<0", dict(x=-0.1)), ("x>1", dict(x=1.0000001)), ("Q2=0", dict(Q2=0.0)), ("Q2<0", dict(Q2=-4.0)),
-          ("x<grid", dict(x="below")), ("x=nan", dict(x=float("nan"))), ("Q2=nan", dict(Q2=float("nan"))), ("Q2=inf", dict(Q2=float("inf"))),
+          ("x<grid", dict(x="below")), ("x<grid-1e-9", dict(x="below-1e-9")), ("x<grid-1e-6", dict(x="below-1e-6")), ("x<grid-ulp", dict(x="below-ulp")), ("x=nan", dict(x=float("nan"))), ("Q2=nan", dict(Q2=float("nan"))), ("Q2=inf", dict(Q2=float("inf"))),
           ("x=inf", dict(x=float("inf"))), ("x=-inf", dict(x=float("-inf")))]  # fmt: skip
 
 
@@ -65,15 +65,16 @@ def cases(tier, rng):
             # clean-up must still hand back finite numbers
             x, q2 = cards.logu(rng, 2e-7, 1e-5), cards.logu(rng, 1e4, 1e6)
         out.append(dict(id=f"c16-{n}", mode="lattice", kind=kind, heavy=heavy, theory=th, obs=ob, point=dict(x=x, Q2=q2, y=float(rng.uniform(0.05, 0.95))), extreme=extreme, bare=bool(rng.random() < 0.2), timeout=CASE_TIMEOUT))
-    # domain clause
-    nd = 66 if tier == "quick" else 660
-    for n in range(nd):
-        label, bad = BADKIN[n % len(BADKIN)]
-        kind = cards.pick(rng, ["F2", "FL", "F3", "g1", "XSHERANC", "XSHERACC", "XSCHORUSCC", "F1", "FW"])
-        proc = cards.pick(rng, ["EM", "NC"]) if kind in ("g1",) else cards.pick(rng, PROCS)
-        th = dict(PTO=int(cards.pick(rng, [0, 1])), FNS=cards.pick(rng, cards.SCHEMES), NfFF=4, TMC=int(cards.pick(rng, [0, 0, 1, 3])))
-        out.append(dict(id=f"c16-d{n}", mode="domain", label=label, bad=bad, kind=kind, heavy=cards.pick(rng, ["total", "light", "charm"]), theory=th,
-                        obs=dict(prDIS=proc, ProjectileDIS=cards.pick(rng, cards.PROJECTILES)), point=dict(x=0.1, Q2=20.0, y=0.5), timeout=300))  # fmt: skip
+    # domain clause: every (kind, bad value) pair, the other factors drawn
+    n = 0
+    for rep in range(1 if tier == "quick" else 6):
+        for kind in ["F2", "FL", "F3", "g1"] + cards.XSS:
+            for label, bad in BADKIN:
+                proc = cards.pick(rng, ["EM", "NC"]) if kind in ("g1", "g5") else cards.pick(rng, PROCS)
+                th = dict(PTO=int(cards.pick(rng, [0, 1])), FNS=cards.pick(rng, cards.SCHEMES), NfFF=4, TMC=int(cards.pick(rng, [0, 0, 1, 2, 3])) if kind != "g5" else 0)
+                out.append(dict(id=f"c16-d{n}", mode="domain", label=label, bad=bad, kind=kind, heavy=cards.pick(rng, ["total", "light", "charm"]), theory=th,
+                                obs=dict(prDIS=proc, ProjectileDIS=cards.pick(rng, cards.PROJECTILES)), point=dict(x=0.1, Q2=20.0, y=float(cards.pick(rng, [0.5, 0.13, 1.0]))), timeout=300))  # fmt: skip
+                n += 1
     return out
 
 
@@ -101,7 +102,9 @@ def run_case(case):
     xg = cards.grid(5, 4, x_min=1e-3) if not case.get("extreme") else cards.grid(7, 4, x_min=1e-7)
     if case["mode"] == "domain":
         for k, v in case["bad"].items():
-            p[k] = xg[0] * 0.5 if v == "below" else v
+            if isinstance(v, str):
+                v = {"below": xg[0] * 0.5, "below-1e-9": xg[0] * (1 - 1e-9), "below-1e-6": xg[0] * (1 - 1e-6), "below-ulp": float(np.nextafter(xg[0], 0))}[v]
+            p[k] = v
     kin = dict(x=p["x"], Q2=p["Q2"], **({"y": p["y"]} if isxs else {}))
     ob = cards.observables({name: [kin]}, xgrid=xg, deg=2, **case["obs"])
     cell = f"{case['kind']}|{case['heavy']}|{case['obs']['prDIS']}|{th['FNS']}|pto{th['PTODIS']}"
